@@ -8,6 +8,7 @@ import (
 	"path/filepath"
 	"sort"
 	"strconv"
+	"strings"
 	"time"
 )
 
@@ -42,7 +43,21 @@ func main() {
 	list := flag.Bool("list", false, "list registered properties")
 	dumpF := flag.Bool("dump-fields", false, "print the struct fields of the module (reference list for renamed fields)")
 	dump := flag.Bool("dump-funcs", false, "print the key of every function declared in the module (reference list for the inliner)")
+	dumpSSA := flag.String("dump-ssa", "", "debugging: print the SSA form (as analysed, after inlining) of the functions whose name contains this string")
 	flag.Parse()
+	if *dumpSSA != "" {
+		p, err := loadProg(*repo, "", false)
+		if err != nil {
+			fmt.Fprintln(os.Stderr, err)
+			os.Exit(2)
+		}
+		for _, fn := range p.Mod {
+			if strings.Contains(fn.String(), *dumpSSA) {
+				fn.WriteTo(os.Stdout)
+			}
+		}
+		return
+	}
 	if *dumpF {
 		pkgs, err := loadPkgs(*repo, "", nil)
 		if err != nil {
